@@ -24,6 +24,7 @@ import subprocess
 import sys
 import tempfile
 import threading
+import time
 
 V = os.path.dirname(os.path.dirname(os.path.abspath(__file__)))
 OUT = os.path.join(V, 'selftest', 'sweep')
@@ -328,7 +329,13 @@ def check_one(m):
     d = tempfile.mkdtemp(prefix='sweepck-', dir='/tmp')
     w = d + '/r'
     try:
-        subprocess.run(['git', '-C', REPO, 'worktree', 'add', '--detach', '-q', w, 'HEAD'], check=True)
+        for attempt in range(5):
+            r0 = subprocess.run(['git', '-C', REPO, 'worktree', 'add', '--detach', '-q', w, 'HEAD'], stderr=subprocess.DEVNULL)
+            if r0.returncode == 0:
+                break
+            time.sleep(1 + attempt)
+        else:
+            raise RuntimeError('git worktree add failed')
         apply(w, m)
         env = dict(os.environ, VERIF_REPO=w, VERIF_EVIDENCE_DIR=d + '/ev', VERIF_REPORT_DIR=d + '/rep')
         det = {}
@@ -395,7 +402,7 @@ def categorise(m):
         return 'dead-data', 'Contour::depth is written but never read; the other changed branch is the defensive one'
     if f == 'divide_segment.rs' and new == 'false,':
         return 'dead-data', 'is_exterior_ring is only read by the debug dump'
-    if 'contour_id +=' in old or (fn == 'fill_queue' and 'exterior' in old and op == 'negate-if'):
+    if 'contour_id +=' in old or (fn == 'fill_queue' and 'if exterior {' in old):
         return 'dead-data', 'contour ids only break ties between collinear same-operand edges with one left end point, which valid input does not contain (documented residue of C15)'
     if fn == 'new_rc':
         return 'dead-data', 'the initial value is overwritten before it is read (compute_fields / order_events / mark_as_processed); -2 is as negative as -1'
@@ -409,6 +416,8 @@ def categorise(m):
         return 'equivalent', 'a ring is closed: every vertex is the end of one edge and the start of the next'
     if re.search(r' <= | >= ', new) and re.search(r' < | > ', old):
         return 'equivalent-by-precondition', 'the two sides are never equal here, or equality gives the same value (distinct events never compare Equal; the same-point / collinear case is handled before)'
+    if fn == 'subdivide' and 'sweep_line.contains(&other_event)' in old and new.endswith('if true {'):
+        return 'equivalent-by-precondition', 'the left event of a right event being processed is in the sweep line (the debug assertion next to it says so); the test is defensive'
     if fn in ('next', 'prev') and 'splay(' in old:
         return 'performance-only', 'the descent from the root finds the neighbour with or without the splay; only the amortised cost changes'
     if fn == 'size_hint':
